@@ -11,33 +11,38 @@ CLAIMED = {
              'validate_line_column.wrapper is executed symbolically over K<=3 (thorough 5) code lines of unbounded '
              'content (length<=64), unbounded integer or None line/column; the solver shows ValueError is raised '
              'exactly for positions outside the text, nothing else escapes, and the query receives the normalised '
-             'position. Every path is re-run natively on a model.',
+             'position. Every path is re-run natively on a model.'
+             ' Added: P4 obligations over corpora of BROKEN snippets with a symbolic in-range cursor: helpers.get_on_completion_name, get_signature_details (+CallDetails accessors), completion._extract_string_while_in_string, Script.get_context and the grammar-stack front end of Completion._complete_python never raise.',
         note='Decides only the position-contract clause (and, as added, the shallow API layer); parso tokenizer/parser '
              'and the inference engine on arbitrary text are NOT decided. Lines are assumed to have the shape '
              'parso.split_lines produces.'),
     'C11': dict(
         text='Bounded symbolic model checking of CallDetails.calculate_index against Python\'s argument binding rule '
              '(admissible-set oracle): all valid parameter-kind sequences up to P parameters with symbolic names '
-             '(prefix collisions included), all call prefixes up to A arguments of every argument shape.',
+             '(prefix collisions included), all call prefixes up to A arguments of every argument shape.'
+             ' Added: _SignatureMixin.to_string re-parses to the same kinds (symbolic kinds), bound signatures drop exactly the first parameter, and bracket_start equals the innermost call parenthesis for every cursor of a call corpus (reference from CPython tokenize).',
         note='Decides the index clause only (plus rendering obligations as added). Equality with inspect.signature '
              'through wrappers and docstrings need inference and are not decided. Argument triples are assumed to be '
              'what helpers._iter_arguments yields.'),
     'C15': dict(
         text='Each give-up mechanism is checked as one inductive step from an arbitrary symbolic state satisfying the '
              'representation invariant: execution budgets (depth, total, per-function, recursive), balanced push/pop '
-             'of the recursion decorator on normal and exceptional exit.',
+             'of the recursion decorator on normal and exceptional exit.'
+             ' Added: fresh detectors share no state, the per-node inference cap (_limit_value_infers) as an inductive step over an arbitrary counter, and the MRO listing over all inheritance DAGs of <=5 classes (terminates, no duplicates, every ancestor).',
         note='Wall-clock behaviour of whole queries and polynomial scaling are not decided; limits are read from '
              'jedi.inference.recursion at run time; funcdefs are abstract identities.'),
     'C02': dict(
         text='Bounded symbolic model checking of the tuple-assignment projection (TreeNameDefinition.assignment_indexes + '
              'syntax_tree.check_tuple_assignments over stand-in target trees, nesting and stars, right-hand length '
-             'symbolic) against Python\'s unpacking semantics.',
+             'symbolic) against Python\'s unpacking semantics.'
+             " Added: param.get_executed_param_names_and_issues against Python's argument binding for every valid parameter list / call shape within the bounds, and the owner class of the per-MRO ClassFilters in ClassMixin.get_filters.",
         note='Only this kernel of the evaluator is decided; the abstract interpreter as a whole (calls, classes, '
              'instances, generators, narrowing ...) is NOT. One recorded known finding (targets after a star).'),
     'C03': dict(
         text='Bounded symbolic model checking of the two selection kernels of name resolution: ParserTreeFilter._filter/'
              '_check_flows (latest reachable definition of the scope before the use wins; symbolic positions, scope bits '
-             'and reachability verdicts) and context.get_global_filters (scope order and where the position limit stops).',
+             'and reachability verdicts) and context.get_global_filters (scope order and where the position limit stops).'
+             ' Added: FunctionValue.from_context skips every enclosing class body (class-body rule) over symbolic context chains.',
         note='Thin: goto dispatch, class-body skipping, global/nonlocal merging and the flow analysis itself are NOT '
              'decided (reachability and parent-scope lookup are symbolic stubs).'),
     'C04': dict(
@@ -53,7 +58,8 @@ CLAIMED = {
         text='Bounded symbolic model checking of rename(): the node->text map and parso\'s RefactoringNormalizer are '
              'executed over a flat token list with symbolic prefixes/values and a symbolic subset of reported tokens: '
              'exactly those tokens are rewritten, every other byte kept, renaming back restores the text; module/package '
-             'renames announce exactly dir/new+suffix resp. dir.parent/new.',
+             'renames announce exactly dir/new+suffix resp. dir.parent/new.'
+             ' Added: the real merge loop of references.find_references over symbolic goto closures (2 definitions, 3 usages, symbolic start and scan order) yields the connected component; _find_global_variables collects the bindings of every function declaring the name global.',
         note='That get_references reports the right set (goto closure, partition) and that the renamed program behaves '
              'the same are NOT decided.'),
     'C06': dict(
@@ -68,7 +74,8 @@ CLAIMED = {
              'exactly the renamed path and the paths below it, for every way a path text can relate to the renamed '
              'path) and of ChangedFile/Refactoring.apply with recording open()/rename stubs (nothing touched before '
              'apply, each file written once with newline="" and exactly get_new_code(), renames after writes, '
-             'path=None => RefactoringError).',
+             'path=None => RefactoringError).'
+             ' Added: extract._replace keeps the complete prefix of the replaced expression and of the statement (byte preservation of the extract refactorings).',
         note='difflib, parso\'s RefactoringNormalizer and the real file system are trusted/stubbed; the diff text '
              'itself and byte preservation by the normalizer are not decided in this round.'),
     'C08': dict(
@@ -83,7 +90,8 @@ CLAIMED = {
              'importlib\'s resolve_name (reference cross-checked natively against importlib.util.resolve_name) and (b) '
              'sys_path.transform_path_to_dotted against a path-prefix reference: for every way a sys.path entry text can '
              'relate to the module path (not a prefix / prefix at a component boundary / prefix ending inside a '
-             'component) the dotted name is the components below the deepest parent entry.',
+             'component) the dotted name is the components below the deepest parent entry.'
+             ' Added: helper-side _find_module_py33 never falls back to an interpreter-wide lookup for a sub-module search (finders stubbed, answers symbolic).',
         note='Module discovery is delegated to the target interpreter\'s importlib and is not decided; POSIX paths; '
              'components are unbounded strings without "/", newline, NUL; <=2 sys.path entries, depth<=2(4).'),
     'C12': dict(
@@ -95,14 +103,16 @@ CLAIMED = {
     'C13': dict(
         text='Decision-table model checking of CompiledValueFilter._get (all environment answers symbolic booleans) and '
              'DirectObjectAccess.is_allowed_getattr (getattr_static outcome stubbed): in safe mode a descriptor hit never '
-             'becomes a getattr-backed name and no dynamic attribute access happens.',
+             'becomes a getattr-backed name and no dynamic attribute access happens.'
+             ' Added: getattr_static precedence (data descriptors vs instance dict) and py__simple_getitem__ (exact builtin container types) as decision tables over descriptor / container kinds.',
         note='Thin: whether getattr_static agrees with CPython attribute lookup on live objects, and the absence of '
              'other routes to user code (__getitem__, __iter__ ...), are NOT decided.'),
     'C14': dict(
         text='The request/reply protocol under a symbolic fault schedule (write: ok/BrokenPipe; reply: well-formed, '
              'error reply, EOFError, UnpicklingError; stderr read may fail): only InternalError escapes, crash flag <=> '
              'helper unusable, a dead helper is never written to again; Environment replaces a crashed helper; '
-             'deletion-queue bookkeeping as an inductive step over arbitrary queue contents.',
+             'deletion-queue bookkeeping as an inductive step over arbitrary queue contents.'
+             ' Added: _cleanup_process under symbolic OSError outcomes of kill/wait/close.',
         note='Real process death, zombies, file descriptors and hangs are NOT modelled (stubs for pickle and the process).'),
     'C16': dict(
         text='Sort key of sorted_definitions vs Name.__eq__ over symbolic positions, paths and spellings (unequal results '
@@ -112,7 +122,8 @@ CLAIMED = {
     'C17': dict(
         text='Projection kernels: BaseName.line/column == start_pos; get_line_code is exactly the window of code lines '
              'around the definition for unbounded before/after over symbolic lines; get_module_names partitions tokens '
-             'into definitions/references.',
+             'into definitions/references.'
+             ' Added: Name.is_definition over all identifier cursors of a corpus against the binding tokens computed from CPython ast.',
         note='Thin: that every Name points at its own token and is_definition() matches Python binding is NOT decided.'),
     'C18': dict(
         text='get_context over ALL cursor positions of a corpus of valid files: the real Script.get_context and '
